@@ -124,4 +124,118 @@ theorem headId_insertIdx_succ (l : Forest) (j : Nat) (t : Tree) (h : l ≠ []) :
   | nil => simp at h
   | cons a as => simp [List.insertIdx_succ_cons, headId]
 
+/-! ### searching in forests -/
+
+theorem find?_mem {q : Nat} : ∀ {l : Forest} {tq : Tree}, find? q l = some tq → q ∈ ids l ∧ tq.id = q
+  | [], _, h => by simp [find?] at h
+  | (.node i n v cs) :: ts, tq, h => by
+    simp only [find?] at h
+    by_cases hiq : i = q
+    · simp [hiq] at h; subst h; simp [hiq, Tree.id]
+    · simp only [hiq, ↓reduceIte] at h
+      cases hc : find? q cs with
+      | some t =>
+        simp [hc] at h; subst h
+        have := find?_mem hc
+        simp [this]
+      | none =>
+        simp [hc] at h
+        have := find?_mem h
+        simp [this]
+
+theorem find?_none {q : Nat} : ∀ {l : Forest}, q ∉ ids l → find? q l = none
+  | [], _ => by simp [find?]
+  | (.node i n v cs) :: ts, h => by
+    simp at h
+    simp only [find?]
+    have h1 : ¬ i = q := fun e => h.1 e.symm
+    simp [h1, find?_none h.2.1, find?_none h.2.2]
+
+theorem find?_children_subset {q : Nat} : ∀ {l : Forest} {tq : Tree}, find? q l = some tq →
+    ∀ k ∈ ids tq.children, k ∈ ids l
+  | [], _, h => by simp [find?] at h
+  | (.node i n v cs) :: ts, tq, h => by
+    simp only [find?] at h
+    by_cases hiq : i = q
+    · simp [hiq] at h; subst h; intro k hk; simp [Tree.children] at hk; simp [hk]
+    · simp only [hiq, ↓reduceIte] at h
+      cases hc : find? q cs with
+      | some t =>
+        simp [hc] at h; subst h
+        intro k hk
+        have := find?_children_subset hc k hk
+        simp [this]
+      | none =>
+        simp [hc] at h
+        intro k hk
+        have := find?_children_subset h k hk
+        simp [this]
+
+theorem modKids_of_not_mem {q : Nat} {g : Forest → Forest} : ∀ {l : Forest}, q ∉ ids l → modKids q g l = l
+  | [], _ => by simp [modKids]
+  | (.node i n v cs) :: ts, h => by
+    simp at h
+    have h1 : ¬ i = q := fun e => h.1 e.symm
+    simp [modKids, h1, modKids_of_not_mem h.2.1, modKids_of_not_mem h.2.2]
+
+theorem headId_modKids {q : Nat} {g : Forest → Forest} : ∀ (l : Forest), headId (modKids q g l) = headId l
+  | [] => by simp [modKids]
+  | (.node i n v cs) :: ts => by
+    simp only [modKids]
+    split <;> simp
+
+/-- context lemma: replacing the children of node `q` -/
+theorem real_modKids {s s' : Store} {q : Nat} {g : Forest → Forest} {tq : Tree} :
+    ∀ {l : Forest} {par prev : Option Nat},
+    Real s par prev l → (ids l).Nodup → find? q l = some tq →
+    Real s' (some q) none (g tq.children) →
+    s'.nodes[q]? = (s.nodes[q]?).map (fun n => { n with children := headId (g tq.children) }) →
+    (∀ i ∈ ids l, i ≠ q → i ∉ ids tq.children → s'.nodes[i]? = s.nodes[i]?) →
+    Real s' par prev (modKids q g l)
+  | [], _, _, _, _, hf, _, _, _ => by simp [find?] at hf
+  | (.node i n v cs) :: ts, par, prev, hL, hnd, hf, hloc, hq, hfr => by
+    rw [Real_cons] at hL
+    rw [ids_cons, List.nodup_cons, List.mem_append, List.nodup_append] at hnd
+    obtain ⟨hni, ndcs, ndts, disj⟩ := hnd
+    simp only [find?] at hf
+    simp only [modKids]
+    by_cases hiq : i = q
+    · subst hiq
+      simp at hf; subst hf
+      simp only [↓reduceIte, Tree.children] at hloc hq hfr ⊢
+      rw [Real_cons]
+      refine ⟨?_, hloc, ?_⟩
+      · rw [hq, hL.1]; rfl
+      · refine Real.frame hL.2.2 (fun k hk => hfr k (by simp [hk]) ?_ ?_)
+        · rintro rfl; exact hni (Or.inr hk)
+        · intro h; exact disj k h k hk rfl
+    · simp only [hiq, ↓reduceIte] at hf ⊢
+      rw [Real_cons, headId_modKids]
+      cases hc : find? q cs with
+      | some t =>
+        simp [hc] at hf; subst hf
+        have hqcs := (find?_mem hc).1
+        have hsub := find?_children_subset hc
+        have hqts : q ∉ ids ts := fun h => disj q hqcs q h rfl
+        rw [modKids_of_not_mem hqts]
+        refine ⟨?_, ?_, ?_⟩
+        · rw [hfr i (by simp) hiq (fun h => hni (Or.inl (hsub i h))), hL.1]
+          simp [recOf, headId_modKids]
+        · exact real_modKids hL.2.1 ndcs hc hloc hq (fun k hk h1 h2 => hfr k (by simp [hk]) h1 h2)
+        · refine Real.frame hL.2.2 (fun k hk => hfr k (by simp [hk]) ?_ ?_)
+          · rintro rfl; exact hqts hk
+          · intro h; exact disj k (hsub k h) k hk rfl
+      | none =>
+        simp [hc] at hf
+        have hqts := (find?_mem hf).1
+        have hsub := find?_children_subset hf
+        have hqcs : q ∉ ids cs := fun h => disj q h q hqts rfl
+        rw [modKids_of_not_mem hqcs]
+        refine ⟨?_, ?_, ?_⟩
+        · rw [hfr i (by simp) hiq (fun h => hni (Or.inr (hsub i h))), hL.1]
+        · refine Real.frame hL.2.1 (fun k hk => hfr k (by simp [hk]) ?_ ?_)
+          · rintro rfl; exact hqcs hk
+          · intro h; exact disj k hk k (hsub k h) rfl
+        · exact real_modKids hL.2.2 ndts hf hloc hq (fun k hk h1 h2 => hfr k (by simp [hk]) h1 h2)
+
 end Mpt.Nodes
